@@ -51,6 +51,13 @@ MISTAKES_RE = re.compile(r"&(?:a|%[46]1)(?:m|%[46]D)(?:p|%[57]0)(?:%3B|;)", re.I
 unshadowed_quote = quote
 
 
+def lowercase(string):
+    # NOTE: `str.lower` writes a capital sigma "\u03c3" or "\u03c2" depending on
+    # what surrounds it, so the result depends on the way a url happens to be
+    # cut or escaped. Only the former is kept.
+    return string.lower().replace(u"\u03c2", u"\u03c3")
+
+
 def safe_urlsplit(url, scheme="http"):
     if isinstance(url, SplitResult):
         return url
